@@ -13,7 +13,7 @@
       not-reproducible    two workers with the same (base_seed, rank): states at *all* places, samples, collated batches equal
     State coincidences are re-observed with two other base seeds before they are reported (a 31-bit seed collision does not
     recur; a mechanism does).
-(b) real DataLoader(num_workers 2..4, fork) over stacks whose transforms are the real containers around harness probes (a
+(b) real DataLoader(num_workers 1..4, fork) over stacks whose transforms are the real containers around harness probes (a
     KDStochasticTransform / collator whose only effect is to publish one raw draw, tagged with get_worker_info().id/.seed):
     draws of different workers are disjoint, no draw belongs to a generator of the parent, a second pass under the same
     torch.manual_seed repeats batches and draws bit-identically, a pass under another seed shares no draw.
@@ -41,9 +41,9 @@ RULE = ("(a) random dataset stacks: a harness root (tensor / PIL / (image, mask)
         "dataset; the parts of a concat / interleaved stack are separate datasets or different wrapper stacks over ONE shared root / shared "
         "lower layers (shared part first or last); multi-view config lists mix KDTransform views, identity views and plain-callable views "
         "(function / callable object) in every order (plain first / middle / last); transforms are random well-typed compositions (kdv/h07_recipes.py) to depth 3 of compose / bare list / random-apply / "
-        "patchwise / scheduled over every stochastic recipe; x W in {2,3,4} workers of one base seed + one worker of another base seed "
+        "patchwise / scheduled over every stochastic recipe; x W in {1,2,3,4} workers of one base seed + one worker of another base seed "
         "(same rank) + one duplicate worker, K in 3..6 samples. (b) probe stacks of the same shapes on a real forked DataLoader "
-        "(W 2..4, batch 1..3, two torch seeds, InterleavedSampler.get_data_loader included). distinct by full spec; trivial = no live generator")
+        "(W 1..4, batch 1..3, two torch seeds, InterleavedSampler.get_data_loader included). distinct by full spec; trivial = no live generator")
 ASSUMPTIONS = [
     "simulated workers reproduce torch's worker loop through torch.utils.data._utils.worker (WorkerInfo, _generate_state): "
     "random.seed / torch.manual_seed(base_seed + rank), np.random.seed(_generate_state(base_seed, rank)); 'worker seed' = (base_seed, rank)",
@@ -71,7 +71,7 @@ ASSUMPTIONS = [
 MONITORS = ["sim_workers_observed", "live_generators_judged", "state_pairs_compared", "raw_sets_compared", "same_seed_pairs_compared",
             "samples_drawn", "collated_batches", "loader_runs", "loader_draws_observed", "loader_worker_pairs_compared",
             "loader_repeats_compared", "mv_plain_view_before_kd_view", "concat_parts_sharing_a_dataset",
-            "interleaved_parts_sharing_a_dataset"]
+            "interleaved_parts_sharing_a_dataset", "single_worker_sim_cases", "single_worker_loader_cases"]
 
 STEP_LIMIT = 3_000_000
 WITNESSES_PER_KEY = 4
@@ -85,7 +85,7 @@ def gen_cases(run):
     part = os.environ.get("KDV_C09_PART")       # development aid: run only one half of the check
     if part == "loader":
         for _ in range(n_loader):
-            yield _loader_case(rng)
+            yield _loader_case(rng, made_loader)
         return
     if part == "sim":
         n_loader = 0
@@ -93,22 +93,23 @@ def gen_cases(run):
     made_loader = 0
     for i in range(n_sim):
         top = G.gen_sim_stack(rng)
-        W = rng.choice([2, 3, 4])
+        W = rng.choice([1, 1, 2, 3, 4])     # a single worker is re-created per epoch with a new seed as well
         b1 = rng.randrange(2 ** 40)
         yield {"kind": "sim", "top": top, "build_seed": rng.randrange(2 ** 31), "W": W, "base": [b1, b1 + 1000 + rng.randrange(2 ** 40)],
                "alt_rank": rng.randrange(W), "dup_rank": rng.randrange(W), "K": rng.choice([3, 4, 4, 6]), "B": rng.choice([1, 2, 3]),
                "idx_seed": rng.randrange(10 ** 6)}
         if i % every == every // 2 and made_loader < n_loader:
             made_loader += 1
-            yield _loader_case(rng)
+            yield _loader_case(rng, made_loader)
     while made_loader < n_loader:
         made_loader += 1
-        yield _loader_case(rng)
+        yield _loader_case(rng, made_loader)
 
 
-def _loader_case(rng):
+def _loader_case(rng, k=0):
     s1 = rng.randrange(2 ** 40)
-    return {"kind": "loader", "top": G.gen_probe_stack(rng), "build_seed": rng.randrange(2 ** 31), "W": rng.choice([2, 2, 3, 4]),
+    return {"kind": "loader", "top": G.gen_probe_stack(rng), "build_seed": rng.randrange(2 ** 31), "W": [1, 2, 3, 1, 2, 4][k % 6],      # every worker count in every run, a single worker included
+            
             "B": rng.choice([1, 2, 2, 3]), "torch_seed": [s1, s1 + 1 + rng.randrange(2 ** 40)], "base": [rng.randrange(2 ** 40)]}
 
 
@@ -253,7 +254,8 @@ def observe_sim(spec, shift, stats):
             if p in stale_places:
                 continue
             stale_places.add(p)
-            blame = S.blame_stale(o.ds, p, stale_paths, kw)
+            with S.simulated_worker(o.rank, W, o.base, o.ds):     # same WorkerInfo as when the hook ran
+                blame = S.blame_stale(o.ds, p, stale_paths, kw)
             findings.append({"key": f"stale-generator:{blame}", "place": p, "confirm": True,
                              "what": f"after worker_init_fn({o.rank}) under worker seed (base {o.base}, rank {o.rank}) the live generator at "
                                      f"`stack{p}` (held by {_owner_name(e)}) was not overwritten: {kind}; every worker replays the stream "
@@ -528,6 +530,8 @@ def _stack_cover(run, spec):
                 run.cover("leaf", n["recipe"])
                 _note(run, "classes_exercised", H.RECIPES[n["recipe"]].cls.__name__)
     run.cover("workers", spec["kind"], spec["W"])
+    if spec["W"] == 1:
+        run.count(f"single_worker_{spec['kind']}_cases")
 
 
 def _note(run, key, val):
